@@ -32,6 +32,8 @@ type c12case struct {
 	Deny    string `json:"denied_by,omitempty"` // off | level (logger one step more severe than the record; only possible for Fatal)
 	Format  string `json:"format"`
 	Kind    string `json:"logger"` // root | child | default
+	Huge    bool   `json:"huge_argument_list,omitempty"` // 1100 arguments instead of 4
+	Bench   bool   `json:"production_process_with_a_-bench_argument,omitempty"`
 }
 
 var c12entries = []string{"verb", "ctxverb", "LogAttrs", "Logit", "Log(std)", "pkg.verb", "pkg.ctxverb"}
@@ -63,6 +65,22 @@ func c12enumerate() []c12case {
 					}
 				}
 			}
+		}
+	}
+	// extra cells, appended so that the base matrix keeps its indices
+	base := append([]c12case(nil), out...)
+	for _, b := range base {
+		if b.Format == "logfmt" && b.Admit {
+			h := b
+			h.Huge = true // the same cell with a very long argument list (above the pooled size hints)
+			out = append(out, h)
+		}
+	}
+	for _, b := range base {
+		if !b.Testing && b.Format == "json" {
+			x := b
+			x.Bench = true // a production process that happens to carry an argument starting with -bench is still a production process
+			out = append(out, x)
 		}
 	}
 	return out
@@ -139,7 +157,7 @@ func c12exec(c *Ctx, out string) {
 				res.ValueT = fmt.Sprintf("%T", e)
 			}
 		}()
-		c12call(lg, cs.Entry, sev, std, ctx)
+		c12call(lg, cs.Entry, sev, std, ctx, cs.Huge)
 		res.Returned = true
 	}()
 	b, _ := json.Marshal(res)
@@ -147,8 +165,13 @@ func c12exec(c *Ctx, out string) {
 	os.Exit(0)
 }
 
-func c12call(lg *slog.Entry, entry string, sev slog.Level, std stdslog.Level, ctx context.Context) {
+func c12call(lg *slog.Entry, entry string, sev slog.Level, std stdslog.Level, ctx context.Context, huge bool) {
 	args := []any{"k", 1, "why", "because"}
+	if huge {
+		for i := 0; i < 548; i++ {
+			args = append(args, fmt.Sprintf("k%03d", i), i)
+		}
+	}
 	switch entry {
 	case "verb":
 		if sev == slog.PanicLevel {
@@ -190,7 +213,7 @@ func runProbe(c *Ctx, testing bool, base string, extra string) (exit int, timedO
 	return runProbeFor(c, "C12", testing, base, extra)
 }
 
-func runProbeFor(c *Ctx, prop string, testing bool, base string, extra string) (exit int, timedOut bool, stderr string) {
+func runProbeFor(c *Ctx, prop string, testing bool, base string, extra string, more ...string) (exit int, timedOut bool, stderr string) {
 	bin := c.Self
 	var args []string
 	if testing {
@@ -198,6 +221,7 @@ func runProbeFor(c *Ctx, prop string, testing bool, base string, extra string) (
 		args = append(args, "-test.vf=1")
 	}
 	args = append(args, "-prop", prop, "-sub", "exec", "-out", base, "-x", extra)
+	args = append(args, more...)
 	cmd := exec.Command(bin, args...)
 	cmd.Env = []string{"PATH=" + os.Getenv("PATH"), "HOME=" + os.Getenv("HOME")}
 	var eb bytes.Buffer
@@ -246,7 +270,15 @@ func c12matrix(c *Ctx) {
 		os.Remove(base + ".res")
 		// commas would split the -x list: hex-free trick — the JSON has commas, so pass it base64-free via a file
 		_ = os.WriteFile(base+".case", cj, 0o644)
-		exit, to, se := runProbe(c, cs.Testing, base, "casefile="+base+".case")
+		extra := "casefile=" + base + ".case"
+		var exit int
+		var to bool
+		var se string
+		if cs.Bench {
+			exit, to, se = runProbeFor(c, "C12", false, base, extra, "-benchlabel=nightly")
+		} else {
+			exit, to, se = runProbe(c, cs.Testing, base, extra)
+		}
 		c.R.Add("probe_processes", 1)
 		if to {
 			c.R.Add("watchdog_timeouts", 1)
